@@ -801,7 +801,12 @@ func (gs *GossipSubRouter) OnClosedOutboundStream(p peer.ID) {
 		gs.extensions.OnClosedOutboundStream(p)
 	}
 	delete(gs.peers, p)
-	for _, peers := range gs.mesh {
+	for topic, peers := range gs.mesh {
+		if _, inMesh := peers[p]; inMesh && gs.tagTracer != nil {
+			// no PRUNE is traced for a peer that goes away, so release the
+			// connection manager protection of the mesh link here
+			gs.tagTracer.untagMeshPeer(p, topic)
+		}
 		delete(peers, p)
 	}
 	for _, peers := range gs.fanout {
